@@ -547,6 +547,12 @@ fn nalgebra_routines<D: Subject<f64> + nalgebra::RealField>(ctx: &mut Ctx, d: Di
         }
     }
     for (a_re, class) in eig {
+        // negligible off-diagonal real parts are, for nalgebra's SymmetricEigen, zero ones: the
+        // deflation on real parts recorded as a known finding (not num-dual code); the class is
+        // there for the crate's own routine
+        if *class == "tiny-offdiagonal" {
+            continue;
+        }
         let n = a_re.len();
         let ev = eig_sym(a_re);
         let gap = ev.windows(2).map(|w| w[1] - w[0]).fold(f64::INFINITY, f64::min);
@@ -673,6 +679,19 @@ fn matrix_sets(mode: Mode) -> (Vec<(Vec<Vec<f64>>, &'static str)>, Vec<(Vec<Vec<
                 }
             }
         }
+    }
+    // symmetric matrices whose off-diagonal real parts are tiny but not zero (2^-70) next to O(1)
+    // derivative parts, for every order of the diagonal: the small-angle branch of the Jacobi
+    // rotation (t = a_pq / (d_q - d_p)) does all the work there, in the derivative parts
+    let t = 2f64.powi(-70);
+    for diag in [vec![2.0, -1.0], vec![-1.0, 2.0]] {
+        eig.push((vec![vec![diag[0], t], vec![t, diag[1]]], "tiny-offdiagonal"));
+        eig.push((vec![vec![diag[0], -t], vec![-t, diag[1]]], "tiny-offdiagonal"));
+    }
+    for p in permutations(3) {
+        let dv = [3.0, 1.0, 2.0];
+        let m: Vec<Vec<f64>> = (0..3).map(|i| (0..3).map(|j| if i == j { dv[p[i]] } else if (i + j) % 2 == 0 { -t } else { t }).collect()).collect();
+        eig.push((m, "tiny-offdiagonal"));
     }
     // the same matrices scaled by powers of two (real and derivative parts): conditioning, and
     // therefore singularity, does not depend on the magnitude of the entries
